@@ -599,3 +599,48 @@ func H_Window() {
 		vf.Reach("rejected")
 	}
 }
+
+// H_ObjectNames: an object value with two property names that are symbolic letters:
+// the parser accepts it whether or not the names collide, and evaluation - in
+// literal-only mode and in full-expression mode, at the top level and nested in an
+// array or an object - rejects it exactly when they do.
+func H_ObjectNames() {
+	nm := vf.Bytes(2)
+	for _, c := range nm {
+		vf.Assume(c-'a' < 3)
+	}
+	obj := `{"` + string(nm[:1]) + `":1,"` + string(nm[1:]) + `":true}`
+	src := obj
+	nest := vf.Concretize(vf.Choice(3))
+	switch nest {
+	case 1:
+		src = "[" + obj + "]"
+	case 2:
+		src = `{"k":` + obj + `}`
+	}
+	expr, diags := hcljson.ParseExpression([]byte(src), "o.json")
+	vf.Assert(!diags.HasErrors(), "duplicate-names-are-accepted-by-the-parser")
+	for pass := 0; pass < 2; pass++ {
+		var ctx *hcl.EvalContext
+		if pass == 1 {
+			ctx = &hcl.EvalContext{}
+		}
+		v, vd := expr.Value(ctx)
+		dup := nm[0] == nm[1]
+		vf.Assert(vd.HasErrors() == dup, "duplicate-names-rejected-at-evaluation")
+		if vd.HasErrors() || dup {
+			vf.Reach("duplicate")
+			continue
+		}
+		switch nest {
+		case 1:
+			v = v.Index(cty.NumberIntVal(0))
+		case 2:
+			v = v.GetAttr("k")
+		}
+		ok := v.Type().IsObjectType() && v.LengthInt() == 2 &&
+			v.GetAttr(string(nm[:1])).RawEquals(cty.NumberIntVal(1)) && v.GetAttr(string(nm[1:])).RawEquals(cty.True)
+		vf.Assert(ok, "object-maps-to-its-properties")
+		vf.Reach("distinct")
+	}
+}
